@@ -84,7 +84,10 @@ def _stage_job(job):
         do(allidx[8:], plot=True)
         do(allidx[8:])
     do(allidx[::-1])
-    for cut in (1, st.n // 3, st.n - 1):
+    # "splitting a batch at ANY point": every cut for the cheap stages (so every piece length 1 .. n-1 occurs, e.g. a piece of exactly as
+    # many events as the random-number array has rows), a spread of cuts for the expensive ones
+    cuts = range(1, st.n) if st.cost < 3 else (1, 2, 4, st.n // 3, st.n - 4, st.n - 1)
+    for cut in cuts:
         do(allidx[:cut])
         do(allidx[cut:])
     for n in longs:
